@@ -15,6 +15,60 @@ pub proof fn lemma_neg_value(nx: int, dx: int, n1: int, d1: int, nv: int, dv: in
     assert((nv * dx) * d1 == (-nx * dv) * d1) by (nonlinear_arith) requires n1 * dx == nx * d1, nv * d1 == -n1 * dv;
     assert(nv * dx == -nx * dv) by (nonlinear_arith) requires (nv * dx) * d1 == (-nx * dv) * d1, d1 > 0;
 }
+/// the number the k-th popped argument denotes (arg(vm, k), k >= 1), if it is a number
+pub open spec fn num_arg(vm: Vm, k: int) -> Option<Number> { cell_number(vm.heap_spec(), arg(vm, k)) }
+/// the first k arguments (in popping order) all are exact numbers
+pub open spec fn args_exact(vm: Vm, k: nat) -> bool { forall|j: int| 1 <= j <= k ==> ((#[trigger] num_arg(vm, j)) matches Some(x) && is_exact(x)) }
+/// exact sum / product of the first k arguments as a fraction (numerator, denominator), denominators positive
+pub open spec fn args_sum(vm: Vm, k: nat) -> (int, int) decreases k {
+    if k == 0 { (0int, 1int) } else { match num_arg(vm, k as int) {
+        Some(x) => (args_sum(vm, (k - 1) as nat).0 * vden(x) + vnum(x) * args_sum(vm, (k - 1) as nat).1, args_sum(vm, (k - 1) as nat).1 * vden(x)),
+        None => (0int, 1int) } }
+}
+pub open spec fn args_prod(vm: Vm, k: nat) -> (int, int) decreases k {
+    if k == 0 { (1int, 1int) } else { match num_arg(vm, k as int) {
+        Some(x) => (args_prod(vm, (k - 1) as nat).0 * vnum(x), args_prod(vm, (k - 1) as nat).1 * vden(x)),
+        None => (1int, 1int) } }
+}
+/// s = N/D, s1 = s + x  ==>  s1 = (N * dx + nx * D) / (D * dx)        (all denominators positive)
+pub proof fn lemma_cancel(x: int, y: int, k: int) requires x * k == y * k, k > 0 ensures x == y {
+    assert(x == y) by (nonlinear_arith) requires x * k == y * k, k > 0;
+}
+pub proof fn lemma_sum_step(sn: int, sd: int, n: int, d: int, xn: int, xd: int, rn: int, rd: int)
+    requires sd > 0, d > 0, xd > 0, rd > 0, sn * d == n * sd, rn * (sd * xd) == (sn * xd + xn * sd) * rd
+    ensures rn * (d * xd) == (n * xd + xn * d) * rd
+{
+    let lhs = rn * (d * xd); let rhs = (n * xd + xn * d) * rd;
+    let m = sn * d;
+    assert(lhs * sd == (rn * (sd * xd)) * d) by (nonlinear_arith) requires lhs == rn * (d * xd);
+    assert((rn * (sd * xd)) * d == ((sn * xd + xn * sd) * rd) * d);
+    assert(((sn * xd + xn * sd) * rd) * d == (m * xd + xn * sd * d) * rd) by (nonlinear_arith) requires m == sn * d;
+    assert(m == n * sd);
+    assert((m * xd + xn * sd * d) * rd == rhs * sd) by (nonlinear_arith) requires m == n * sd, rhs == (n * xd + xn * d) * rd;
+    lemma_cancel(lhs, rhs, sd);
+}
+/// s = N/D, s1 = s * x  ==>  s1 = (N * nx) / (D * dx)
+pub proof fn lemma_prod_step(sn: int, sd: int, n: int, d: int, xn: int, xd: int, rn: int, rd: int)
+    requires sd > 0, d > 0, xd > 0, rd > 0, sn * d == n * sd, rn * (sd * xd) == (sn * xn) * rd
+    ensures rn * (d * xd) == (n * xn) * rd
+{
+    let lhs = rn * (d * xd); let rhs = (n * xn) * rd;
+    let m = sn * d;
+    assert(lhs * sd == (rn * (sd * xd)) * d) by (nonlinear_arith) requires lhs == rn * (d * xd);
+    assert((rn * (sd * xd)) * d == ((sn * xn) * rd) * d);
+    assert(((sn * xn) * rd) * d == (m * xn) * rd) by (nonlinear_arith) requires m == sn * d;
+    assert(m == n * sd);
+    assert((m * xn) * rd == rhs * sd) by (nonlinear_arith) requires m == n * sd, rhs == (n * xn) * rd;
+    lemma_cancel(lhs, rhs, sd);
+}
+pub proof fn lemma_args_den_pos(vm: Vm, k: nat) ensures args_sum(vm, k).1 > 0, args_prod(vm, k).1 > 0 decreases k {
+    if k > 0 { lemma_args_den_pos(vm, (k - 1) as nat);
+        match num_arg(vm, k as int) { Some(x) => {
+            assert(vden(x) > 0);
+            assert(args_sum(vm, (k - 1) as nat).1 * vden(x) > 0) by (nonlinear_arith) requires args_sum(vm, (k - 1) as nat).1 > 0, vden(x) > 0;
+            assert(args_prod(vm, (k - 1) as nat).1 * vden(x) > 0) by (nonlinear_arith) requires args_prod(vm, (k - 1) as nat).1 > 0, vden(x) > 0;
+        } None => {} } }
+}
 impl vstd::std_specs::convert::FromSpecImpl<Number> for VCell {
     open spec fn obeys_from_spec() -> bool { true }
     open spec fn from_spec(v: Number) -> VCell { VCell::Number(v) }
@@ -48,6 +102,65 @@ UNITS = [{
     'fns': {
         # each procedure establishes the precondition of the Number operation it calls (non-zero divisor, integer operands):
         # removing or weakening a guard fails the callee's precondition here
+        # variadic + and *: an exact answer is exactly the sum / product of ALL the arguments, each of which then was exact
+        '::plus': {
+            'props': N, 'requires': REQ,
+            'ensures': [
+                (['C08'], '''r matches Ok(c) ==> (arg(*old(vm), 0) matches VCell::ArgumentCount(n) && (c matches VCell::Number(v)
+                    && (is_exact(v) ==> args_exact(*old(vm), n as nat) && q_eq(vnum(v), vden(v), args_sum(*old(vm), n as nat).0, args_sum(*old(vm), n as nat).1))))'''),
+            ],
+            'loop_iter': {0: 'it0'},
+            'loops': {0: '''invariant
+                    vm.stack_spec().wf(), vm.heap_spec() == old(vm).heap_spec(), vm.stack_spec().cells() == old(vm).stack_spec().cells(),
+                    arg(*old(vm), 0) == VCell::ArgumentCount(argc), old(vm).stack_spec().sp_spec() >= 1,
+                    vm.stack_spec().sp_spec() == (if old(vm).stack_spec().sp_spec() - 1 - it0.index@ >= 0 { old(vm).stack_spec().sp_spec() - 1 - it0.index@ } else { 0 }),
+                    is_exact(sum) ==> it0.index@ <= old(vm).stack_spec().sp_spec() - 1 && args_exact(*old(vm), it0.index@ as nat)
+                        && q_eq(vnum(sum), vden(sum), args_sum(*old(vm), it0.index@ as nat).0, args_sum(*old(vm), it0.index@ as nat).1),'''},
+            'loop_count': 1,
+            'inserts': [
+                {'loop_start': 0, 'text': 'let ghost sum0 = sum; proof { if old(vm).stack_spec().sp_spec() - 1 - it0.index@ >= 1 { axiom_cow_cell_ref(&arg(*old(vm), it0.index@ + 1)); } }'},
+                {'loop_end': 0, 'text': '''; proof {
+                    let j = it0.index@ as nat; let k = (j + 1) as nat;
+                    if is_exact(sum) {
+                        match num_arg(*old(vm), k as int) { Some(x) => {
+                            lemma_args_den_pos(*old(vm), j);
+                            assert(vden(sum0) > 0 && vden(x) > 0 && vden(sum) > 0);
+                            lemma_sum_step(vnum(sum0), vden(sum0), args_sum(*old(vm), j).0, args_sum(*old(vm), j).1, vnum(x), vden(x), vnum(sum), vden(sum));
+                            assert forall|i: int| 1 <= i <= k implies ((#[trigger] num_arg(*old(vm), i)) matches Some(y) && is_exact(y)) by { if i <= j { assert(args_exact(*old(vm), j)); } }
+                        } None => {} }
+                    }
+                }'''},
+            ],
+        },
+        '::multiply': {
+            'props': N, 'requires': REQ,
+            'ensures': [
+                (['C08'], '''r matches Ok(c) ==> (arg(*old(vm), 0) matches VCell::ArgumentCount(n) && (c matches VCell::Number(v)
+                    && (is_exact(v) ==> args_exact(*old(vm), n as nat) && q_eq(vnum(v), vden(v), args_prod(*old(vm), n as nat).0, args_prod(*old(vm), n as nat).1))))'''),
+            ],
+            'loop_iter': {0: 'it0'},
+            'loops': {0: '''invariant
+                    vm.stack_spec().wf(), vm.heap_spec() == old(vm).heap_spec(), vm.stack_spec().cells() == old(vm).stack_spec().cells(),
+                    arg(*old(vm), 0) == VCell::ArgumentCount(argc), old(vm).stack_spec().sp_spec() >= 1,
+                    vm.stack_spec().sp_spec() == (if old(vm).stack_spec().sp_spec() - 1 - it0.index@ >= 0 { old(vm).stack_spec().sp_spec() - 1 - it0.index@ } else { 0 }),
+                    is_exact(result) ==> it0.index@ <= old(vm).stack_spec().sp_spec() - 1 && args_exact(*old(vm), it0.index@ as nat)
+                        && q_eq(vnum(result), vden(result), args_prod(*old(vm), it0.index@ as nat).0, args_prod(*old(vm), it0.index@ as nat).1),'''},
+            'loop_count': 1,
+            'inserts': [
+                {'loop_start': 0, 'text': 'let ghost sum0 = result; proof { if old(vm).stack_spec().sp_spec() - 1 - it0.index@ >= 1 { axiom_cow_cell_ref(&arg(*old(vm), it0.index@ + 1)); } }'},
+                {'loop_end': 0, 'text': '''; proof {
+                    let j = it0.index@ as nat; let k = (j + 1) as nat;
+                    if is_exact(result) {
+                        match num_arg(*old(vm), k as int) { Some(x) => {
+                            lemma_args_den_pos(*old(vm), j);
+                            assert(vden(sum0) > 0 && vden(x) > 0 && vden(result) > 0);
+                            lemma_prod_step(vnum(sum0), vden(sum0), args_prod(*old(vm), j).0, args_prod(*old(vm), j).1, vnum(x), vden(x), vnum(result), vden(result));
+                            assert forall|i: int| 1 <= i <= k implies ((#[trigger] num_arg(*old(vm), i)) matches Some(y) && is_exact(y)) by { if i <= j { assert(args_exact(*old(vm), j)); } }
+                        } None => {} }
+                    }
+                }'''},
+            ],
+        },
         '::minus': {
             'props': N, 'requires': REQ,
             'body_start': 'proof { if old(vm).stack_spec().sp_spec() > 1 { axiom_cow_cell_ref(&arg(*old(vm), 1)); } }',
@@ -78,6 +191,16 @@ UNITS = [{
                 }'''},
             ],
         },
+        # the unary procedures hand their one argument to the Number operation of the same name and return its answer
+        '::abs': {'props': N, 'requires': REQ, 'ensures': [(['C08'], '''r matches Ok(c) ==> (c matches VCell::Number(v) && (num_arg(*old(vm), 1) matches Some(x)
+            && (is_exact(v) ==> is_exact(x) && vden(v) > 0 && q_eq(vnum(v), vden(v), iabs(vnum(x)), vden(x)))))''')]},
+        '::floor': {'props': N, 'requires': REQ, 'ensures': [(['C08'], '''r matches Ok(c) ==> (c matches VCell::Number(v) && (num_arg(*old(vm), 1) matches Some(x)
+            && (is_exact(v) <==> is_exact(x)) && (is_exact(x) ==> is_int(v) && vnum(v) == fdiv(vnum(x), vden(x)))))''')]},
+        '::ceiling': {'props': N, 'requires': REQ, 'ensures': [(['C08'], '''r matches Ok(c) ==> (c matches VCell::Number(v) && (num_arg(*old(vm), 1) matches Some(x)
+            && (is_exact(v) <==> is_exact(x)) && (is_exact(x) ==> is_int(v) && vnum(v) == cdiv(vnum(x), vden(x)))))''')]},
+        '::truncate': {'props': N, 'requires': REQ, 'ensures': [(['C08'], '''r matches Ok(c) ==> (c matches VCell::Number(v) && (num_arg(*old(vm), 1) matches Some(x)
+            && (is_exact(v) <==> is_exact(x)) && (is_exact(x) ==> is_int(v) && vnum(v) == tdiv(vnum(x), vden(x)))))''')]},
+        # min / max compare with `<` / `>`: provided trait methods cannot be given a specification in this Verus, so they are not under contract
         '::divide': {'props': N, 'requires': REQ},
         '::quotient': {'props': N, 'requires': REQ},
         '::remainder': {'props': N, 'requires': REQ},
